@@ -212,21 +212,41 @@ func (d *vCountDst) ReceiveBlob(ctx context.Context, br blob.Ref, src io.Reader)
 	return blob.SizedRef{Ref: br, Size: uint32(d.total)}, nil
 }
 
-// K02d: sizes on both sides of the cap. The model hash says "matches" for every length,
-// so only the cap can reject: exactly MaxBlobSize is accepted, one byte more is not.
+// K02d: sizes on both sides of the cap, genuine or corrupt. The model hash matches only when
+// the upload is genuine and all of its bytes were hashed: exactly MaxBlobSize genuine bytes are
+// accepted, one byte more is rejected, and a corrupt upload is rejected at every size.
 func VK02dSizeCap() {
 	delta := int64(vrt.Choice(3)) - 1 // -1, 0, +1
 	size := int64(MaxBlobSize) + delta
-	d := vrt.Bytes(28)
-	vrt.Stub("(*crypto/internal/fips140/sha256.Digest).Write", func(p []byte) (int, error) { return len(p), nil })
-	vrt.Stub("(*crypto/internal/fips140/sha256.Digest).Sum", func(in []byte) []byte { return append(in, d...) })
+	// model hash: the digest of exactly `size` bytes is d when the upload is genuine, anything
+	// else (fewer bytes hashed, or a corrupt upload) hashes to a different digest d2
+	d, d2 := vrt.Bytes(28), vrt.Bytes(28)
+	vrt.Assume(d[0] != d2[0])
+	genuine := vrt.Bool()
+	written := int64(0)
+	vrt.Stub("(*crypto/internal/fips140/sha256.Digest).Write", func(p []byte) (int, error) {
+		written += int64(len(p))
+		return len(p), nil
+	})
+	vrt.Stub("(*crypto/internal/fips140/sha256.Digest).Sum", func(in []byte) []byte {
+		if genuine && written == size {
+			return append(in, d...)
+		}
+		return append(in, d2...)
+	})
 	br := blob.VerifRef(1, d)
 	dst := &vCountDst{}
 	_, err := Receive(context.Background(), dst, br, &vBigSrc{remain: size})
 	vrt.Assert(dst.total <= MaxBlobSize, "a store is never handed more than the 16 MiB limit")
-	if delta <= 0 {
+	if delta == 0 {
+		vrt.Cover("corrupt-at-cap") // (the genuine / corrupt cases of one size are merged)
+	}
+	switch {
+	case delta <= 0 && genuine:
 		vrt.Assert(err == nil && dst.committed && dst.total == size, "a matching blob within the limit is accepted whole")
-	} else {
-		vrt.Assert(!(err == nil && dst.total == size), "a blob over the limit is never accepted whole")
+	case delta <= 0:
+		vrt.Assert(err != nil, "a corrupt blob is rejected also at the size limit")
+	default:
+		vrt.Assert(err != nil, "a blob over the limit is rejected")
 	}
 }
